@@ -32,6 +32,7 @@ def run(F, G, tier, seed):
     nullness.run_countloop(chk, F, G)
     scopes.part_context(chk, F, G)
     scopes.current_clear(chk, F, G)
+    scopes.template_set(chk, F)
     nullness.run_nullmember(chk, F, ("UTAP::TypeChecker",))
     progress.run(chk, F, CG)
     chk.assume("functions without a body in the facts (libstdc++, libxml2, libc) raise no UTAP::TypeException")
